@@ -2,9 +2,10 @@
 
 (M) TLC explores Tls13.tla exhaustively: every configuration (client with /
     without a session ticket, server with / without certificate request and
-    ticket store), the key-holding adversary feeding any of the 19 message
+    ticket store), the key-holding adversary feeding any of the 21 message
     variants (all 12 HandshakeType values, an unknown type, bad MAC / signature
-    variants, PSK variants, empty certificate) in every reachable state, and all
+    variants, PSK variants, empty certificate, EncryptedExtensions with early_data,
+    CertificateRequest with a context) in every reachable state, and all
     scripts "hello + arrangement of a sub-multiset of the flight"; invariants
     NoSkip, KeysAfterAuth, RefusalIsUnexpectedMessage.
 (R) every script TLC enumerated (printed from the initial states of SpecScript)
@@ -53,11 +54,11 @@ CLIENT_CV_CONTEXT = b"TLS 1.3, client CertificateVerify"
 
 NAME_TYPE = {"CH": "CLIENT_HELLO", "CHpsk": "CLIENT_HELLO", "CHpskbad": "CLIENT_HELLO", "SH": "SERVER_HELLO",
              "SHpsk": "SERVER_HELLO", "NST": "NEW_SESSION_TICKET", "EOED": "END_OF_EARLY_DATA",
-             "EE": "ENCRYPTED_EXTENSIONS", "CERT": "CERTIFICATE", "CERTempty": "CERTIFICATE",
+             "EE": "ENCRYPTED_EXTENSIONS", "EEearly": "ENCRYPTED_EXTENSIONS", "CRctx": "CERTIFICATE_REQUEST", "CERT": "CERTIFICATE", "CERTempty": "CERTIFICATE",
              "CR": "CERTIFICATE_REQUEST", "CV": "CERTIFICATE_VERIFY", "CVbad": "CERTIFICATE_VERIFY",
              "FIN": "FINISHED", "FINbad": "FINISHED", "KU": "KEY_UPDATE", "CCERT": "COMPRESSED_CERTIFICATE",
              "MH": "MESSAGE_HASH", "UNKNOWN": "UNKNOWN"}
-CLIENT_ALPHABET = ["SH", "SHpsk", "EE", "CR", "CERT", "CERTempty", "CV", "CVbad", "FIN", "FINbad", "NST",
+CLIENT_ALPHABET = ["SH", "SHpsk", "EE", "EEearly", "CR", "CRctx", "CERT", "CERTempty", "CV", "CVbad", "FIN", "FINbad", "NST",
                    "CH", "EOED", "KU", "CCERT", "MH", "UNKNOWN"]
 SERVER_ALPHABET = ["CH", "CHpsk", "CHpskbad", "CERT", "CERTempty", "CV", "CVbad", "FIN", "FINbad", "SH", "EE",
                    "CR", "NST", "EOED", "KU", "CCERT", "MH", "UNKNOWN"]
@@ -191,10 +192,10 @@ class Lab:
         entries = b"" if empty else len(self.cert_der).to_bytes(3, "big") + self.cert_der + b"\x00\x00"
         return hs_msg(11, b"\x00" + len(entries).to_bytes(3, "big") + entries)
 
-    def certificate_request(self):
+    def certificate_request(self, context=b""):
         algs = b"".join(struct.pack("!H", a) for a in (0x0403, 0x0804, 0x0401, 0x0503, 0x0805, 0x0501))
         ext = struct.pack("!HH", 13, len(algs) + 2) + struct.pack("!H", len(algs)) + algs
-        return hs_msg(13, b"\x00" + struct.pack("!H", len(ext)) + ext)
+        return hs_msg(13, bytes([len(context)]) + context + struct.pack("!H", len(ext)) + ext)
 
     def new_session_ticket(self):
         ext = struct.pack("!HHI", 42, 4, 0xFFFFFFFF)
@@ -221,7 +222,22 @@ class Lab:
             return hs_msg(99, b"")
         if name == "CR":
             return self.certificate_request()
+        if name == "CRctx":
+            return self.certificate_request(context=b"\x07ctx")
         raise MachineryError("no encoder for message " + name)
+
+
+def with_early_data(ee):
+    """EncryptedExtensions with an (empty) early_data extension, unless it has one."""
+    exts, p, has = ee[6:], 0, False
+    while p + 4 <= len(exts):
+        t, n = struct.unpack("!HH", exts[p:p + 4])
+        has = has or t == 42
+        p += 4 + n
+    if has:
+        return ee
+    exts = exts + struct.pack("!HH", 42, 0)
+    return hs_msg(8, struct.pack("!H", len(exts)) + exts)
 
 
 def add_psk_to_server_hello(sh):
@@ -333,8 +349,9 @@ def run_case(lab, cfg, names, batch_from=None, keep_going=False):
         if role == "client":
             if name in ("SH", "SHpsk"):
                 return genuine_server(name)["sh"]
-            if name == "EE":
-                return st["ee"] if st["sh"] else genuine_server("SH")["ee"]
+            if name in ("EE", "EEearly"):
+                ee = st["ee"] if st["sh"] else genuine_server("SH")["ee"]
+                return ee if name == "EE" else with_early_data(ee)
             if name == "CH":
                 return st["ch"]
             cv_context = SERVER_CV_CONTEXT
@@ -348,8 +365,8 @@ def run_case(lab, cfg, names, batch_from=None, keep_going=False):
                 return ch[:-1] + bytes([ch[-1] ^ 1])
             if name == "SH":
                 return st["sh"] or lab.dummy_server_hello()
-            if name == "EE":
-                return st["ee"]
+            if name in ("EE", "EEearly"):
+                return st["ee"] if name == "EE" else with_early_data(st["ee"])
             cv_context = CLIENT_CV_CONTEXT
         if name in ("CERT", "CERTempty"):
             return lab.certificate(empty=(name == "CERTempty"))
@@ -450,8 +467,8 @@ def run_quic_case(lab, names):
             cs, sec = [(x, y) for d, e, x, y in secrets if d == D.ENCRYPT and e == E.HANDSHAKE][0]
             h, tr, flight = suite_hash(cs), bytes(data) + bufs[E.INITIAL].data, b""
             for i, n in enumerate(names):
-                if n == "EE":
-                    m = ee
+                if n in ("EE", "EEearly"):
+                    m = ee if n == "EE" else with_early_data(ee)
                 elif n in ("SH", "SHpsk"):
                     m = bufs[E.INITIAL].data if n == "SH" else add_psk_to_server_hello(bufs[E.INITIAL].data)
                 elif n == "CH":
@@ -726,7 +743,7 @@ def run(check):
         if t not in seen:
             seen.add(t)
             scripts.append(parse_case(t))
-    if len(scripts) < 1231:
+    if len(scripts) < 2014:
         raise MachineryError("TLC enumerated only %d scripts" % len(scripts))
     check.cov["scripts_from_tlc"] = len(scripts)
 
